@@ -107,6 +107,48 @@ def run_struct_only(R, name, default=False):
     structure(R, env, name + ("@default" if default else ""))
 
 
+def run_pacman_wrap(R):
+    """PacMan: the player's wrap-around arithmetic (tunnel rows of the default maze) keeps both coordinates inside the position spec.
+    The harness mazes have closed borders, so `player_step`'s modulo is never exercised by the step obligations; it is checked
+    here on its own, on the real function, for every position of the DEFAULT maze's bounding box, every action and 1-2 steps ahead:
+    x' == (x + dx) mod x_size in [0, x_size), y' == (y + dy) mod y_size in [0, y_size)."""
+    import types as pytypes
+    from engine.jx2smt import Ctx
+    from engine.vexpr import all_, where
+    from jumanji import environments as E
+    from jumanji.environments.routing.pac_man import utils as U
+    from jumanji.environments.routing.pac_man.types import Position
+    env = E.PacMan()
+    xs, ys = int(env.x_size), int(env.y_size)
+    spec = env.observation_spec["player_locations"] if hasattr(env.observation_spec, "__getitem__") else None
+    R.bound(x_size=xs, y_size=ys, position="any cell of the bounding box", action="0..4", steps="1, 2")
+    for steps in (1, 2):
+        ctx = Ctx()
+        x = ctx.fresh_arr("P.x", (), np.int32, 0, xs - 1)
+        y = ctx.fresh_arr("P.y", (), np.int32, 0, ys - 1)
+        a = ctx.fresh_arr("P.a", (), np.int32, 0, 4)
+        out = S.call(ctx, lambda x_, y_, a_: U.player_step(pytypes.SimpleNamespace(player_locations=Position(x=x_, y=y_)), a_, xs, ys, steps), x, y, a,
+                     R=R, name="pac_man.utils.player_step")
+        R.nvars += 3
+        A = list(ctx.assumptions)
+        R.reach(f"player_step steps={steps}", A)
+        nx, ny, vx, vy, va = vs(out.x), vs(out.y), vs(x), vs(y), vs(a)
+        dx = where(va == 0, -steps, where(va == 2, steps, 0))
+        dy = where(va == 1, -steps, where(va == 3, steps, 0))
+        wx, wy = (vx + dx + xs) % xs, (vy + dy + ys) % ys
+
+        def rp(model, steps=steps):
+            x0, y0, a0 = (int(S.model_sv(model, t)) for t in (x, y, a))
+            p = U.player_step(pytypes.SimpleNamespace(player_locations=Position(x=jnp.asarray(x0), y=jnp.asarray(y0))), jnp.asarray(a0), xs, ys, steps)
+            ok = 0 <= int(p.x) < xs and 0 <= int(p.y) < ys
+            return (not ok), {"position": [x0, y0], "action": a0, "steps": steps, "new_position": [int(p.x), int(p.y)], "x_size": xs, "y_size": ys}
+        R.prove(f"player_step (steps={steps}): new x in [0, x_size) and new y in [0, y_size): inside the position spec after a wrap-around", A,
+                ((nx >= 0) & (nx < xs) & (ny >= 0) & (ny < ys)).term(), replay=rp)
+        R.prove(f"player_step (steps={steps}): new position == old position + move, modulo (x_size, y_size)", A, ((nx == wx) & (ny == wy)).term(),
+                replay=lambda m, steps=steps: (True, {"note": "wrap-around arithmetic differs from (x+dx) mod x_size, (y+dy) mod y_size", "steps": steps}))
+    R.sample({"kernel": "pac_man.utils.player_step", "x_size": xs, "y_size": ys})
+
+
 def run_struct_rewards(R, name):
     """every reward function shipped in the environment's reward module (not only the default one): structure/shape/dtype of
     reward, discount and observation against the specs, from the IR's own output types (holds for all inputs)"""
@@ -155,6 +197,7 @@ def jobs(tier, seed):
     for name in configs.ALL:
         if name != "Sokoban":
             js.append((f"{name}@default/struct", "checks.C01", "run_struct_only", {"name": name, "default": True}))
+    js.append(("PacMan/kernel-player_step-wrap", "checks.C01", "run_pacman_wrap", {}))
     for name in ("RubiksCube", "SlidingTilePuzzle", "Sudoku", "BinPack", "FlatPack", "Knapsack", "Connector", "CVRP", "MMST", "MultiCVRP", "Sokoban", "TSP"):
         js.append((f"{name}/struct-reward-fns", "checks.C01", "run_struct_rewards", {"name": name}))
     return js
